@@ -43,6 +43,8 @@ KINDS = [
     "DATA after the response completed", "trailers after the response completed", "PRIORITY before HEADERS", "RST_STREAM on a finished stream",
     "WINDOW_UPDATE on a finished stream", "headers split over CONTINUATION", "padded HEADERS and DATA", "zero-length DATA frames", "unknown frame type",
     "three PINGs", "SETTINGS change mid-connection", "percent-encoded non-UTF-8 path", "empty header value and huge header count",
+    "WINDOW_UPDATE on a stream answered before its request body ended", "RST_STREAM(NO_ERROR) on a stream answered before its request body ended",
+    "WINDOW_UPDATE on the connection and on an idle (never opened) stream id is not sent; PRIORITY for a finished stream",
 ]
 
 
@@ -151,8 +153,21 @@ def _odd_traffic(kind: int, c: H2Client, conn: Conn, sid: int, obs: H2FrameObser
         conn.feed(_raw_headers(c, sid, _std(), True))
     elif kind == 16:
         conn.feed(_raw_headers(c, sid, _std(path=b"/%ff%fe?%80"), True))
-    else:
+    elif kind == 17:
         conn.feed(_raw_headers(c, sid, _std(extra=[(b"x-e", b"")] + [(b"x-%d" % i, b"v") for i in range(60)]), True))
+    elif kind in (18, 19):
+        # request body still open on the client side when the (complete) response arrives
+        conn.feed(_raw_headers(c, sid, _std(method=b"POST"), False))
+        pump()
+        if kind == 18:
+            conn.feed(_raw(hf.WindowUpdateFrame(sid, window_increment=1000)))
+        else:
+            conn.feed(_raw(hf.RstStreamFrame(sid, error_code=0)))
+    else:
+        conn.feed(_raw_headers(c, sid, _std(), True))
+        pump()
+        conn.feed(_raw(hf.WindowUpdateFrame(0, window_increment=1000)))
+        conn.feed(_raw(hf.PriorityFrame(sid, depends_on=0, stream_weight=200)))
 
 
 @harness(
@@ -164,7 +179,7 @@ def _odd_traffic(kind: int, c: H2Client, conn: Conn, sid: int, obs: H2FrameObser
     witnesses=[{"n": 2, "k0": 7, "k1": 10, "k2": 0, "sib_first": False, "flavour": 0}, {"n": 1, "k0": 14, "k1": 0, "k2": 0, "sib_first": True, "flavour": 1}],
     budget={"quick": 120, "thorough": 900},
     per_path=60,
-    bounds="sequences of 1..2 (thorough 3) odd-but-legal HTTP/2 exchanges from 18 kinds (non-ASCII/NUL path, ordinary CONNECT, DATA/trailers after the response completed, PRIORITY before HEADERS, RST/WINDOW_UPDATE on finished streams, CONTINUATION, padding, empty DATA, unknown frame type, PING burst, SETTINGS change, ...) each on its own stream, next to a normal sibling request sent before or after them; both worker flavours",
+    bounds="sequences of 1..2 (thorough 3) odd-but-legal HTTP/2 exchanges from 21 kinds (non-ASCII/NUL path, ordinary CONNECT, DATA/trailers after the response completed, PRIORITY before HEADERS, RST/WINDOW_UPDATE on finished streams, CONTINUATION, padding, empty DATA, unknown frame type, PING burst, SETTINGS change, ...) each on its own stream, next to a normal sibling request sent before or after them; both worker flavours",
     encodes=["hypercorn/protocol/h2.py::H2Protocol.handle", "hypercorn/protocol/h2.py::H2Protocol._handle_events", "hypercorn/protocol/h2.py::H2Protocol._create_stream",
              "hypercorn/protocol/http_stream.py::HTTPStream.handle", "hypercorn/protocol/ws_stream.py::WSStream.handle", "hypercorn/protocol/h2.py::H2Protocol._priority_updated"],
     stubs=["tier B runtime", "frames that h2's client API refuses to emit are serialised with hyperframe/hpack directly", "independent h2 client parses the server's output"],
